@@ -88,7 +88,7 @@ pub fn build(spec: &ProgSpec) -> Result<Built, String> {
     // images from the corpus are programs too; direct models carry arbitrary code and are never run
     let runnable = !matches!(spec, ProgSpec::Model(_));
     let original_run = if runnable {
-        let r = vm::run(&program, &RunCfg { step_budget: 400_000, ..Default::default() });
+        let r = vm::run(&program, &RunCfg { step_budget: 1_500_000, ..Default::default() });
         if r.end == vm::RunEnd::Budget { None } else { Some(r) }
     } else {
         None
@@ -459,6 +459,10 @@ pub fn specs_for(which: Which, seed: u64, tier: &str) -> Vec<(String, ProgSpec, 
     let base = specs.len() as u64;
     for (k, (name, src)) in super::c11::limit_templates().into_iter().enumerate() {
         specs.push((format!("limit:{}", name), ProgSpec::Source(src), base + k as u64));
+    }
+    let base = specs.len() as u64;
+    for (k, (name, src)) in work::scale_templates().into_iter().enumerate() {
+        specs.push((format!("scale:{}", name), ProgSpec::Source(src), base + k as u64));
     }
     // the constant-count boundary of the u16 header: 65535 constants is the largest valid pool and must survive the cycle;
     // 65536 cannot be written at all (the writer must refuse it in every build profile, never emit a wrapped count)
